@@ -1001,6 +1001,8 @@ def run(cx, rep):
     counted_index_rule(cx, rep, "C04.8")
     # ---------------------------------------------------------------- C04.9
     guarded_lookup_rule(cx, rep, "C04.9")
+    # ---------------------------------------------------------------- C04.10
+    nonempty_regex_rule(cx, rep, "C04.10")
     rep.rule("C04.7", "an Anchor pairs a span with the file the span was read in (syntax and its file travel together)")
     anchor_colocation_rule(cx, rep, "C04.7")
 
@@ -1700,3 +1702,45 @@ def guarded_lookup_rule(cx, rep, rid):
     # no floor: a tree without such lookups (Option-propagating helpers instead) satisfies the rule; the seeded change
     # C04-l keeps the matcher alive in the thorough tier
     rep.ob(rid, "scan", True, sample={"must_succeed_lookups_found": n_sites, "functions_scanned": len(info)})
+
+
+# ---------------------------------------------------------------------------------------------------- C04.10
+def nonempty_regex_rule(cx, rep, rid):
+    """`//` is not a regular expression literal in JavaScript but the start of a comment: a module that contains
+    `new RegexRuntype(undefined, //, ..)` does not load.  The text of every regex literal the printer emits comes from
+    a function of the IR; that function must not be able to return the empty string - it tests its result for
+    emptiness (and substitutes `(?:)`), since a template literal type may consist of empty parts only (`${""}`)."""
+    F = cx.rs
+    rep.rule(rid, "the text of an emitted regular-expression literal is never empty")
+    n = 0
+    for g, t in sorted(F.hir.items()):
+        f = F.fns.get(g)
+        if f is None or "/src/print/" not in (f.file or ""):
+            continue
+        for st in walk(t["body"]):
+            if st["k"] != "Struct" or not (st.get("def") or "").endswith("Regex"):
+                continue
+            exp = next((fl["e"] for fl in st.get("fields", []) if fl["name"] == "exp"), None)
+            if exp is None:
+                continue
+            n += 1
+            producers = []
+            for x in walk(exp):
+                if x["k"] in ("Call", "MethodCall"):
+                    cal = x.get("callee") if x["k"] == "Call" else (x.get("resolved") or x.get("callee"))
+                    tg = F._callee_gid(f.crate, cal or "")
+                    if tg in F.hir and "String" in (F.fns[tg].output or ""):
+                        producers.append(tg)
+            lit = [x for x in walk(exp) if x["k"] == "Lit" and x.get("lit") == "str"]
+            ok = bool(lit and all(x.get("v") for x in lit)) if not producers else True
+            why = ""
+            for pg in producers:
+                tests = [x for x in walk(F.hir[pg]["body"]) if x["k"] == "MethodCall" and x.get("method") == "is_empty" and "String" in (x.get("recv_ty") or "") + (x["recv"].get("ty") or "")]
+                # the test must concern the value that is returned: a local String of the producer
+                if not tests:
+                    ok = False
+                    why = pg
+            rep.ob(rid, "%s/regex-text-non-empty" % g.rsplit("::", 1)[-1], ok,
+                   "the text of the regular-expression literal emitted by %s comes from %s, which can return the empty string (no emptiness test on its result): a template literal type whose parts are all empty is emitted as `//`, a comment - the generated module is a syntax error" % (g, why),
+                   "%s:%s" % (f.file, st.get("line")), sample={"fn": g, "producers": producers})
+    rep.floor(rid, "regular-expression literals emitted by the printer", n, 1)
